@@ -375,7 +375,21 @@ class Ctx:
                 res.append(r)
                 p_same = "%s.subj%d" % (path, attempt)
                 write_ndjson(p_same, same)
-                res.extend(kf_pass(p_same, subj))
+                kfres = kf_pass(p_same, subj)
+                fixed_ids = {k["id"] for k in self.known if k.get("status") == "fixed"}
+                for x in kfres:
+                    hit_fixed = [kid for kid, _ in x["kf"] if kid in fixed_ids]
+                    if x["accepted"] and hit_fixed:
+                        # a finding recorded as FIXED explains this run again: the defect is back.
+                        # A fixed entry suppresses nothing -> report the strict rejection.
+                        x["accepted"] = False
+                        x["rejected_at"] = r["rejected_at"]
+                        x["event"] = r["event"]
+                        x["run_events"] = runs[idx]
+                        x["line_in_run"] = k
+                        x["regressed"] = hit_fixed
+                        x["kf"] = [(kid, ln) for kid, ln in x["kf"] if kid not in fixed_ids]
+                res.extend(kfres)
                 if not rest:
                     break
                 cur = "%s.rest%d" % (path, attempt)
@@ -424,6 +438,8 @@ class Ctx:
                "subject": head.get("subject"), "reset": head, "rejected_line_in_run": k,
                "rejected_event": r.get("event"), "seed": self.seed, "tier": self.tier,
                "events": run[:k], "how_to_replay": "./check %s --replay %s" % (self.pid, path)}
+        if r.get("regressed"):
+            rep["regression_of_fixed_findings"] = r["regressed"]
         json.dump(rep, open(path, "w"), indent=1)
         self.violations.append({"replay": path, "subject": head.get("subject"), "event": r.get("event"),
                                 "what": what})
